@@ -91,6 +91,8 @@ type fed struct {
 		partitions, crashes           bool
 	}
 	built int
+	// the create event lists additional_creators
+	extraCreators bool
 }
 
 func stateSig(st map[ref.Key]string) string {
@@ -105,7 +107,7 @@ func stateSig(st map[ref.Key]string) string {
 func (f *fed) newReplica(s *fedServer) *room {
 	impl := f.impl
 	rm := &room{r: f.r, t: f.t, ver: f.ver, impl: impl, algo: algoOf(impl), priv: impl.PrivilegedCreators(), nodes: map[string]*node{},
-		now: time.Now().Add(s.skew), users: f.users, roomID: f.roomID, fed: true}
+		now: time.Now().Add(s.skew), users: f.users, roomID: f.roomID, fed: true, extraCreators: f.extraCreators}
 	for _, x := range f.servers {
 		rm.servers = append(rm.servers, x.w)
 	}
@@ -621,6 +623,7 @@ func fedBody(r *sim.Run) {
 		r.Violate(r.Prop, "bootstrap", "error", "room bootstrap failed in version %s: %v", ver, err)
 	}
 	f.roomID = boot.roomID
+	f.extraCreators = boot.extraCreators
 	for _, s := range f.servers {
 		s.rm = f.newReplica(s)
 		for _, id := range boot.order {
@@ -641,10 +644,14 @@ func fedBody(r *sim.Run) {
 				ups = append(ups, s)
 			}
 		}
-		switch t.Weighted([]int{5, 8, 1, 1, 1, 1}) {
+		kind := t.Weighted([]int{5, 8, 1, 1, 1, 1})
+		r.NoteSched("loop", fmt.Sprint(kind))
+		switch kind {
 		case 0: // a user acts
 			if len(ups) > 0 && f.built < 30 {
-				f.act(sim.Pick(t, ups), i)
+				s := sim.Pick(t, ups)
+				r.NoteSched("act", string(s.w.Name))
+				f.act(s, i)
 			}
 		case 1: // the network delivers something (not necessarily the oldest message)
 			if len(f.inflight) > 0 {
@@ -655,6 +662,8 @@ func fedBody(r *sim.Run) {
 						r.Fault("reorder")
 					}
 				}
+				m := f.inflight[k]
+				r.NoteSched("deliver", fmt.Sprintf("%s %d>%d", m.kind, m.from, m.to))
 				f.deliver(k)
 			}
 		case 2: // partition or heal
